@@ -9,7 +9,8 @@ from .common import unit_hashes
 from .C03 import UNITS as _U
 
 PROPERTY = "C04"
-UNITS = _U + [(catalog.MT, "_materialize"), (catalog.BW, "_compute_block_id"), (catalog.BW, "_broadcast_block_id"), (catalog.BW, "Blockwise._idx_to_block"),
+UNITS = _U + [(catalog.MT, "_materialize"), (catalog.CO, "Array._cached_dask_keys"), (catalog.CO, "Array._replace_expr"),
+              (catalog.CO, "Array._lowered_expr"), (catalog.BW, "_compute_block_id"), (catalog.BW, "_broadcast_block_id"), (catalog.BW, "Blockwise._idx_to_block"),
               (catalog.EX, "RootAlias._layer"), (catalog.EX, "ChunksOverride._layer")]
 STUBS = catalog.STUBS
 ASSUMPTIONS = [
@@ -48,5 +49,46 @@ def _body(E, w, prog):
         E.ensure(f"{stage}-keys-wellformed", all(isinstance(k, (tuple, str)) for k in dsk))
 
 
+def _flat(keys):
+    out = []
+    for k in keys:
+        if isinstance(k, list):
+            out.extend(_flat(k))
+        else:
+            out.append(k)
+    return out
+
+
+def inst_collection_keys():
+    """the collection object: __dask_keys__() is the raw-name grid, the materialized graph defines those keys, and both follow
+    the expression when it is replaced in place (what x[idx] = v, out= and compute_chunk_sizes() do), even after the keys
+    were read once"""
+    from symx.runner import Instance
+    import operator
+
+    def body(E):
+        w = catalog.W(E)
+        x = catalog.source(w, E, "x", (2, 2))
+        p1 = catalog.p_elemwise(w, operator.neg, x)
+        p2 = catalog.p_transpose(w, catalog.p_rechunk(w, x, ((x.node.shape[0],), x.node.chunks[1])), (1, 0))
+        coll = w.fn(catalog.NC, "new_collection")(p1.node)
+
+        def check(prog, tag):
+            name = prog.node._name
+            nb = tuple(len(c) for c in prog.node.chunks)
+            E.ensure(f"{tag}-collection-name", coll._name == name and coll.name == name)
+            E.ensure(f"{tag}-keys-are-the-raw-grid", sorted(_flat(coll.__dask_keys__())) == sorted((name,) + g for g in grid(nb)))
+            low = coll._lowered_expr
+            dsk = catalog._layers(low)
+            E.ensure(f"{tag}-graph-defines-every-advertised-key", all(k in dsk for k in _flat(coll.__dask_keys__())))
+
+        check(p1, "fresh")
+        coll._replace_expr(p2.node)
+        check(p2, "after-replace")
+
+    return Instance("c04[collection keys before/after in-place expression replacement]", body, {}, unit="Array.__dask_keys__/_cached_dask_keys/_replace_expr/_lowered_expr")
+
+
 def instances(tier):
-    return catalog.make_instances(tier, "C04", _body, "_materialize + key grids and dependencies of every catalogue class")
+    return catalog.make_instances(tier, "C04", _body, "_materialize + key grids and dependencies of every catalogue class") + \
+        [inst_collection_keys()]
